@@ -14,3 +14,10 @@ package consumer
 //@ ensures [nothing-pending] !old(am.keeper.IsPreCCV(goCtx)) && $GetPendingChanges.called && !$GetPendingChanges.ret1 ==> result1 == nil && len(result0) == 0 && !$ApplyCCValidatorChanges.called
 //@ ensures [applies-pending] !old(am.keeper.IsPreCCV(goCtx)) && $GetPendingChanges.called && $GetPendingChanges.ret1 ==> $ApplyCCValidatorChanges.called && $ApplyCCValidatorChanges.changes == $GetPendingChanges.ret0.ValidatorUpdates && result0 == $ApplyCCValidatorChanges.ret && result1 == nil && $DeletePendingChanges.called
 //@ ensures [pending-consumed] !old(am.keeper.IsPreCCV(goCtx)) && $GetPendingChanges.called && $GetPendingChanges.ret1 ==> !am.keeper.GetPendingChanges(goCtx).1
+
+//@ func AppModule.BeginBlock
+//@ requires am.keeper != nil
+//@ let id := old(am.keeper.GetHeightValsetUpdateID(goCtx, uint64(height)))
+//@ ensures [never-fails] result == nil
+//@ ensures [height-inherits-vsc-id] $SetHeightValsetUpdateID.called && $SetHeightValsetUpdateID.height == height + 1 && $SetHeightValsetUpdateID.valsetUpdateId == id
+//@ precall TrackHistoricalInfo [after-mapping] $SetHeightValsetUpdateID.called
